@@ -69,6 +69,8 @@ struct Out {
     counters: Vec<(String, u64)>,
     samples: Vec<String>,
     fps: std::collections::HashSet<u64>,
+    known: Vec<(String, String)>,
+    known_n: u64,
 }
 
 fn counters(prop: &str) -> Vec<(String, u64)> {
@@ -96,7 +98,7 @@ fn counters(prop: &str) -> Vec<(String, u64)> {
 /// one batch = one scheduler instance (its own seed) running `iters` executions; stops at the first failure.
 /// Runs in a child process of its own: a failing execution can take the process down (a second panic while
 /// shuttle unwinds its threads aborts), and the verdict must survive that.
-type BatchOk = (Vec<(String, u64)>, Vec<String>, Vec<u64>);
+type BatchOk = (Vec<(String, u64)>, Vec<String>, Vec<u64>, Vec<(String, String)>, u64);
 fn batch(prop: &str, seed: u64, iters: usize, pct: bool) -> Result<BatchOk, (String, String)> {
     let mut fds = [0i32; 2];
     unsafe {
@@ -120,7 +122,7 @@ fn batch(prop: &str, seed: u64, iters: usize, pct: bool) -> Result<BatchOk, (Str
                 }
             });
             let j = match r {
-                Ok(()) => serde_json::json!({"ok": true, "counters": counters(prop), "samples": crate::record::SAMPLES.lock().unwrap().clone(), "fps": crate::record::take_fps()}),
+                Ok(()) => serde_json::json!({"ok": true, "counters": counters(prop), "samples": crate::record::SAMPLES.lock().unwrap().clone(), "fps": crate::record::take_fps(), "known": crate::record::KNOWN_HITS.lock().unwrap().iter().take(3).map(|k| serde_json::json!([k.0, k.1])).collect::<Vec<_>>(), "known_n": crate::record::KNOWN_HITS.lock().unwrap().len()}),
                 Err(p) => serde_json::json!({"ok": false, "msg": panic_text(p)}),
             };
             let mut file = std::fs::File::from_raw_fd(fds[1]);
@@ -141,6 +143,8 @@ fn batch(prop: &str, seed: u64, iters: usize, pct: bool) -> Result<BatchOk, (Str
                 v["counters"].as_array().map(|a| a.iter().map(|c| (c[0].as_str().unwrap_or("").to_string(), c[1].as_u64().unwrap_or(0))).collect()).unwrap_or_default(),
                 v["samples"].as_array().map(|a| a.iter().filter_map(|x| x.as_str().map(|s| s.to_string())).collect()).unwrap_or_default(),
                 v["fps"].as_array().map(|a| a.iter().filter_map(|x| x.as_u64()).collect()).unwrap_or_default(),
+                v["known"].as_array().map(|a| a.iter().map(|x| (x[0].as_str().unwrap_or("").to_string(), x[1].as_str().unwrap_or("").to_string())).collect()).unwrap_or_default(),
+                v["known_n"].as_u64().unwrap_or(0),
             ))
         } else {
             let log = std::fs::read_to_string(dir.join("stderr.txt")).unwrap_or_default();
@@ -177,7 +181,11 @@ fn worker(prop: &str, base: u64, w: u64, jobs: u64, batches: u64, iters: usize, 
             r = batch(prop, seed, iters, false);
         }
         match r {
-            Ok((c, smp, fps)) => {
+            Ok((c, smp, fps, kn, kn_n)) => {
+                out.known_n += kn_n;
+                if out.known.len() < 3 {
+                    out.known.extend(kn);
+                }
                 out.iters += iters as u64;
                 for (k, v) in c {
                     *ctr.entry(k).or_insert(0) += v;
@@ -223,6 +231,11 @@ fn check(args: &[String]) -> i32 {
     let iters: usize = arg(args, "--iters").and_then(|s| s.parse().ok()).unwrap_or(2000);
     let batches: u64 = arg(args, "--batches").and_then(|s| s.parse().ok()).unwrap_or(if tier == "quick" { 640 } else { 48000 });
     let wall_cap: u64 = arg(args, "--wall-cap-s").and_then(|s| s.parse().ok()).unwrap_or(if tier == "quick" { 240 } else { 7200 });
+    // --no-known: treat listed findings as violations (used to regenerate their replay files)
+    let no_known = args.iter().any(|a| a == "--no-known");
+    if !no_known {
+        *crate::record::KNOWN.lock().unwrap() = known().into_iter().filter(|k| k.0 == prop).map(|k| k.1).collect();
+    }
     let t0 = Instant::now();
     println!("check property={prop} engine=shuttle tier={tier} seed_base={base} batches={batches} iterations_per_batch={iters} jobs={jobs}");
 
@@ -253,7 +266,7 @@ fn check(args: &[String]) -> i32 {
                 }
                 let o = worker(&prop, base, w, jobs, batches, iters, wall_cap);
                 let _ = std::fs::remove_dir_all(sched_dir());
-                let j = serde_json::json!({"iters": o.iters, "failures": o.failures.iter().map(|f| serde_json::json!([f.0, f.1, f.2, f.3])).collect::<Vec<_>>(), "counters": o.counters, "samples": o.samples, "fps": o.fps.iter().collect::<Vec<_>>()});
+                let j = serde_json::json!({"iters": o.iters, "failures": o.failures.iter().map(|f| serde_json::json!([f.0, f.1, f.2, f.3])).collect::<Vec<_>>(), "counters": o.counters, "samples": o.samples, "fps": o.fps.iter().collect::<Vec<_>>(), "known": o.known.iter().map(|k| serde_json::json!([k.0, k.1])).collect::<Vec<_>>(), "known_n": o.known_n});
                 let mut file = std::fs::File::from_raw_fd(fds[1]);
                 let _ = file.write_all(j.to_string().as_bytes());
                 let _ = file.flush();
@@ -268,6 +281,8 @@ fn check(args: &[String]) -> i32 {
     let mut ctr: std::collections::BTreeMap<String, u64> = Default::default();
     let mut samples: Vec<String> = vec![];
     let mut fps: std::collections::HashSet<u64> = Default::default();
+    let mut soft_known: std::collections::BTreeMap<String, (u64, String)> = Default::default();
+    let mut soft_known_n = 0u64;
     for (pid, fd) in pipes {
         let mut file = unsafe { std::fs::File::from_raw_fd(fd) };
         let mut buf = String::new();
@@ -289,9 +304,14 @@ fn check(args: &[String]) -> i32 {
             samples.extend(v["samples"].as_array().cloned().unwrap_or_default().into_iter().filter_map(|x| x.as_str().map(|s| s.to_string())).take(2));
         }
         fps.extend(v["fps"].as_array().cloned().unwrap_or_default().into_iter().filter_map(|x| x.as_u64()));
+        for k in v["known"].as_array().cloned().unwrap_or_default() {
+            let e = soft_known.entry(k[0].as_str().unwrap_or("").to_string()).or_insert((0u64, k[1].as_str().unwrap_or("").to_string()));
+            e.0 += 0;
+        }
+        soft_known_n += v["known_n"].as_u64().unwrap_or(0);
     }
     failures.sort();
-    let kn = known();
+    let kn = if no_known { vec![] } else { known() };
     let mut by_sig: std::collections::BTreeMap<String, Vec<&(u64, String, String, String)>> = Default::default();
     for f in &failures {
         by_sig.entry(f.1.clone()).or_default().push(f);
@@ -313,6 +333,10 @@ fn check(args: &[String]) -> i32 {
         println!("violation sig=\"{sig}\" batches={} first_seed={} detail: {}", fs.len(), f.0, first_line(&f.2));
         println!("VIOLATION property={prop} replay={path}");
         rc = 1;
+    }
+    for (sig, (_, msg)) in &soft_known {
+        println!("KNOWN-FINDING: property={prop} {sig} [{soft_known_n} execution(s)] {}", first_line(msg));
+        known_hit.insert(sig.clone(), soft_known_n);
     }
     let wall = t0.elapsed().as_secs_f64();
     let nontrivial = fps.len() as u64;
@@ -393,6 +417,14 @@ fn replay(args: &[String]) -> i32 {
     let sig = v["signature"].as_str().unwrap_or("").to_string();
     let sched = v["schedule"].as_str().unwrap_or("").to_string();
     let Some(f) = scenario_of(&prop) else { return 2 };
+    // the oracle's panic comes first; shuttle may panic again while it unwinds ("schedule ended early")
+    static FIRST: std::sync::Mutex<Option<String>> = std::sync::Mutex::new(None);
+    std::panic::set_hook(Box::new(|i| {
+        let mut f = FIRST.lock().unwrap();
+        if f.is_none() {
+            *f = Some(i.to_string());
+        }
+    }));
     let r = std::panic::catch_unwind(move || {
         let sch = ReplayScheduler::new_from_encoded(&sched);
         Runner::new(sch, config()).run(f);
@@ -404,7 +436,7 @@ fn replay(args: &[String]) -> i32 {
             0
         }
         Err(p) => {
-            let msg = panic_text(p);
+            let msg = FIRST.lock().unwrap().clone().unwrap_or_else(|| panic_text(p));
             let got = signature(&prop, &msg);
             println!("replay property={prop} signature=\"{sig}\" reproduced={} got=\"{got}\"", got == sig);
             println!("  {}", first_line(&msg));
